@@ -467,6 +467,60 @@ theorem destPort_single (c : Ctx) (s : Service) (d : Destination) (p : Nat) (h :
 theorem destPort_default (c : Ctx) (d : Destination) (h : d.port = none) :
     destPort c none d = c.listenPort := by simp [destPort, h]
 
+/-- **filteredView_sound.**  Resolving a destination against the port-restricted registry of the
+    sidecar path gives the same cluster port and host as resolving it against the full registry,
+    under `destViewOK`. -/
+theorem filteredView_sound (c : Ctx) (svc : Option Service) (d : Destination)
+    (h : destViewOK c.listenPort svc d = true) :
+    destPort c (filteredView c.listenPort svc) d = destPort c svc d
+    ∧ destHost (filteredView c.listenPort svc) d = destHost svc d := by
+  cases svc with
+  | none => simp [filteredView]
+  | some s =>
+    unfold destViewOK at h
+    by_cases hc : s.ports.contains c.listenPort = true
+    · simp only [filteredView, Option.bind_some, hc, ↓reduceIte, destHost, and_true]
+      unfold destPort
+      cases d.port with
+      | some p => rfl
+      | none =>
+        simp only
+        cases hp : s.ports with
+        | nil => rfl
+        | cons p ps =>
+          cases ps with
+          | nil =>
+            rw [hp] at hc
+            simpa using hc
+          | cons q qs => rfl
+    · simp only [hc, Bool.false_or, Bool.and_eq_true, beq_iff_eq, Bool.or_eq_true, bne_iff_ne, ne_eq,
+        Bool.false_eq_true] at h
+      simp only [filteredView, Option.bind_some, hc, Bool.false_eq_true, ↓reduceIte, destHost, h.1, bne_self_eq_false]
+      refine ⟨?_, trivial⟩
+      unfold destPort
+      cases hd : d.port with
+      | some p => rfl
+      | none =>
+        simp only
+        rcases h.2 with h2 | h2
+        · simp [hd] at h2
+        · cases hp : s.ports with
+          | nil => rfl
+          | cons p ps =>
+            cases ps with
+            | nil => rw [hp] at h2; simp at h2
+            | cons q qs => rfl
+
+/-- F-C12-4: without the side condition the statement is false - a VirtualService on a 9080 listener
+    routing to the single-port (8080) service `ratings` without explicit destination port gets the
+    cluster `outbound|9080||ratings`, although the API says the service's only port is addressed. -/
+theorem filteredView_witness :
+    let c : Ctx := { listenPort := 9080 }
+    let ratings : Service := { host := "ratings.default.svc.cluster.local", ports := [8080] }
+    let d : Destination := { host := "ratings.default.svc.cluster.local" }
+    destPort c (some ratings) d = 8080 ∧ destPort c (filteredView 9080 (some ratings)) d = 9080 := by
+  decide
+
 /-! ## 5. The whole VirtualService -/
 
 theorem evalRoutes_cons (re : Regex) (r : Route) (rs : List Route) (req : Request) :
